@@ -122,7 +122,373 @@ func (x *c01Ctx) headerLayout(sign *ssa.Function) {
 		fmt.Sprintf("the signed header is not message (%v) || base64 MAC (%v) || final line feed (%v): the README says each of the three header items is terminated by 0x0A and the payload starts right after the third", hasMsg, hasMAC, hasNL))
 }
 
-func (x *c01Ctx) nonceLayout(nf *ssa.Function, root ssa.Value, dir string) {
+// ---- the nonce as a byte layout, independent of the idiom that builds it
+//
+// The value handed to the AEAD is either a buffer written in place (copy,
+// binary.*.PutUintN, nonce[i] = v), or a slice grown by append-like calls
+// (append(x, y...), append(x, b), binary.*.AppendUintN), or a buffer of known
+// length filled in place and then grown. Both are turned into the same list
+// of items (offset, width, what) and the spec's layout is checked on the list.
+
+type c01NItem struct {
+	off, n int64     // off < 0 / n < 0: not statically known
+	kind   int       // 0 bytes taken from src, 1 integer src in a fixed width, 2 the single byte src
+	src    ssa.Value //
+	fn     string    // PutUint32 / AppendUint32 …
+	order  string    // bigEndian / littleEndian
+	winHi  int64     // in-place integer: end of the window it is written into (-1: grows as needed)
+	blk    *ssa.BasicBlock
+	in     ssa.Instruction // the call / store that writes the item
+}
+
+// c01StaticLen: the constant length of a byte-slice value.
+func c01StaticLen(v ssa.Value) (int64, bool) {
+	switch x := v.(type) {
+	case *ssa.MakeSlice:
+		return c01ConstInt(x.Len)
+	case *ssa.ChangeType:
+		return c01StaticLen(x.X)
+	case *ssa.Alloc:
+		if arr, ok := deref(x.Type()).Underlying().(*types.Array); ok {
+			return arr.Len(), true
+		}
+	case *ssa.Convert:
+		if c, ok := x.X.(*ssa.Const); ok && c.Value != nil && c.Value.Kind() == constant.String {
+			return int64(len(constant.StringVal(c.Value))), true
+		}
+	case *ssa.Slice:
+		var lo int64
+		if x.Low != nil {
+			k, ok := c01ConstInt(x.Low)
+			if !ok {
+				return 0, false
+			}
+			lo = k
+		}
+		if x.High != nil {
+			k, ok := c01ConstInt(x.High)
+			return k - lo, ok
+		}
+		n, ok := c01StaticLen(x.X)
+		return n - lo, ok
+	}
+	return 0, false
+}
+
+// c01VarargElems: v is the literal element list of a variadic call
+// (append(x, a, b)): the elements in order.
+func c01VarargElems(v ssa.Value) ([]ssa.Value, bool) {
+	sl, ok := v.(*ssa.Slice)
+	if !ok || sl.Low != nil || sl.High != nil {
+		return nil, false
+	}
+	al, ok := sl.X.(*ssa.Alloc)
+	if !ok {
+		return nil, false
+	}
+	arr, ok := deref(al.Type()).Underlying().(*types.Array)
+	if !ok {
+		return nil, false
+	}
+	elems := make([]ssa.Value, arr.Len())
+	for _, u := range refs(al) {
+		switch y := u.(type) {
+		case *ssa.IndexAddr:
+			k, ok := c01ConstInt(y.Index)
+			if !ok || k < 0 || k >= arr.Len() {
+				return nil, false
+			}
+			for _, w := range refs(y) {
+				st, ok := w.(*ssa.Store)
+				if !ok || st.Addr != ssa.Value(y) || elems[k] != nil {
+					return nil, false
+				}
+				elems[k] = st.Val
+			}
+		case *ssa.Slice:
+			if y != sl {
+				return nil, false
+			}
+		case *ssa.DebugRef:
+		default:
+			return nil, false
+		}
+	}
+	for _, e := range elems {
+		if e == nil {
+			return nil, false
+		}
+	}
+	return elems, true
+}
+
+// c01ByteOrderCall: c is a method of encoding/binary's byte orders whose name
+// starts with prefix: the arguments after the receiver, the order's type name.
+func c01ByteOrderCall(c *ssa.Call, prefix string) (args []ssa.Value, name, order string, ok bool) {
+	obj := calleeObj(c)
+	if obj == nil || obj.Pkg() == nil || obj.Pkg().Path() != "encoding/binary" || !strings.HasPrefix(obj.Name(), prefix) {
+		return nil, "", "", false
+	}
+	recv := obj.Type().(*types.Signature).Recv()
+	if recv == nil {
+		return nil, "", "", false
+	}
+	args = c.Call.Args
+	if !c.Call.IsInvoke() {
+		if len(args) == 0 {
+			return nil, "", "", false
+		}
+		args = args[1:]
+	}
+	if len(args) != 2 {
+		return nil, "", "", false
+	}
+	return args, obj.Name(), typeBaseName(recv.Type()), true
+}
+
+func c01UintWidth(name string) int64 {
+	switch {
+	case strings.HasSuffix(name, "Uint16"):
+		return 2
+	case strings.HasSuffix(name, "Uint32"):
+		return 4
+	case strings.HasSuffix(name, "Uint64"):
+		return 8
+	}
+	return -1
+}
+
+// c01InstrBefore: instruction a is executed before b on every path to b.
+func c01InstrBefore(a, b ssa.Instruction) bool {
+	if a.Block() == b.Block() {
+		for _, in := range a.Block().Instrs {
+			if in == a {
+				return true
+			}
+			if in == b {
+				return false
+			}
+		}
+		return false
+	}
+	return a.Block().Dominates(b.Block())
+}
+
+// c01BoolOnEdge: the value of boolean v when control goes from pred to succ.
+func c01BoolOnEdge(v ssa.Value, pred, succ *ssa.BasicBlock) (val, known bool) {
+	if n := len(pred.Instrs); n > 0 && len(pred.Succs) == 2 && pred.Succs[0] != pred.Succs[1] {
+		if iff, ok := pred.Instrs[n-1].(*ssa.If); ok {
+			cond, br := iff.Cond, succ == pred.Succs[0]
+			for {
+				if u, ok := cond.(*ssa.UnOp); ok && u.Op == token.NOT {
+					cond, br = u.X, !br
+					continue
+				}
+				break
+			}
+			if cond == v {
+				return br, true
+			}
+		}
+	}
+	return c01BoolAt(v, pred)
+}
+
+// c01NonceModel: the items of the nonce built in nf. root is the buffer the
+// construction starts from (nil: none), final the value handed on (nil: the
+// buffer itself, written in place only). why != "": not understood.
+func c01NonceModel(nf *ssa.Function, root, final ssa.Value) (items []c01NItem, size int64, why string) {
+	var baseUser ssa.Instruction
+	baseLen := int64(-1)
+	var walk func(v ssa.Value, user ssa.Instruction, d int) (int64, bool)
+	walk = func(v ssa.Value, user ssa.Instruction, d int) (int64, bool) {
+		if d > 16 {
+			why = "the construction is too deep"
+			return 0, false
+		}
+		if isNilConst(v) {
+			return 0, true
+		}
+		if root != nil && c01Root(v) == root {
+			n, ok := c01StaticLen(v)
+			if sl, isSl := v.(*ssa.Slice); isSl && sl.Low != nil {
+				if k, isK := c01ConstInt(sl.Low); !isK || k != 0 {
+					ok = false
+				}
+			}
+			if !ok {
+				why = "the length of the buffer the nonce starts from is not constant"
+				return 0, false
+			}
+			baseUser, baseLen = user, n
+			return n, true
+		}
+		c, ok := v.(*ssa.Call)
+		if !ok {
+			why = "the nonce is assembled from a value that is neither a fresh buffer nor an append"
+			return 0, false
+		}
+		if builtinName(c) == "append" && len(c.Call.Args) == 2 {
+			a, ok := walk(c.Call.Args[0], c, d+1)
+			if !ok {
+				return 0, false
+			}
+			if isNilConst(c.Call.Args[1]) {
+				return a, true
+			}
+			if elems, ok := c01VarargElems(c.Call.Args[1]); ok {
+				for i, e := range elems {
+					items = append(items, c01NItem{off: a + int64(i), n: 1, kind: 2, src: e, blk: c.Block(), winHi: -1, in: c})
+				}
+				return a + int64(len(elems)), true
+			}
+			n, ok := c01StaticLen(c.Call.Args[1])
+			if !ok {
+				items = append(items, c01NItem{off: a, n: -1, kind: 0, src: c.Call.Args[1], winHi: -1})
+				why = "a slice of statically unknown length is appended"
+				return 0, false
+			}
+			items = append(items, c01NItem{off: a, n: n, kind: 0, src: c.Call.Args[1], winHi: -1, in: c})
+			return a + n, true
+		}
+		if args, name, order, ok := c01ByteOrderCall(c, "AppendUint"); ok {
+			a, ok := walk(args[0], c, d+1)
+			if !ok {
+				return 0, false
+			}
+			w := c01UintWidth(name)
+			if w < 0 {
+				why = "unknown integer width of " + name
+				return 0, false
+			}
+			items = append(items, c01NItem{off: a, n: w, kind: 1, src: args[1], fn: name, order: order, winHi: -1, in: c})
+			return a + w, true
+		}
+		why = "the nonce passes through a call that is not an append form (" + c.Call.Value.Name() + ")"
+		return 0, false
+	}
+	if final == nil {
+		final = root
+	}
+	if final == root && root != nil {
+		n, ok := c01StaticLen(root)
+		if !ok {
+			return nil, 0, "the length of the nonce buffer is not constant"
+		}
+		size, baseLen = n, n
+	} else {
+		n, ok := walk(final, nil, 0)
+		if !ok {
+			return items, -1, why
+		}
+		size = n
+	}
+	if root == nil {
+		return items, size, ""
+	}
+	// what is written into the buffer in place
+	rootLen, _ := c01StaticLen(root)
+	win := func(v ssa.Value) (lo, hi int64, ok bool) { // constant window of root
+		if c01Root(v) != root {
+			return 0, 0, false
+		}
+		if v == root {
+			return 0, rootLen, true
+		}
+		sl, isSl := v.(*ssa.Slice)
+		if !isSl {
+			return 0, 0, false
+		}
+		n, ok := c01StaticLen(sl)
+		if !ok {
+			return 0, 0, false
+		}
+		// offsets accumulate through nested windows
+		for cur := ssa.Value(sl); ; {
+			s, ok := cur.(*ssa.Slice)
+			if !ok {
+				break
+			}
+			if s.Low != nil {
+				k, ok := c01ConstInt(s.Low)
+				if !ok {
+					return 0, 0, false
+				}
+				lo += k
+			}
+			cur = s.X
+			if ct, ok := cur.(*ssa.ChangeType); ok {
+				cur = ct.X
+			}
+		}
+		return lo, lo + n, true
+	}
+	late := false
+	add := func(in ssa.Instruction, it c01NItem) {
+		if baseUser != nil && !c01InstrBefore(in, baseUser) {
+			late = true
+		}
+		if it.off >= 0 && it.n >= 0 && it.off+it.n > baseLen {
+			if it.kind == 0 { // copy stops at the end of the window it is given
+				it.n = baseLen - it.off
+			}
+		}
+		it.in = in
+		items = append(items, it)
+	}
+	allInstrs(nf, func(in ssa.Instruction) {
+		switch y := in.(type) {
+		case *ssa.Call:
+			if builtinName(y) == "copy" && len(y.Call.Args) == 2 && c01Root(y.Call.Args[0]) == root {
+				lo, hi, ok := win(y.Call.Args[0])
+				if !ok {
+					add(y, c01NItem{off: -1, n: -1, kind: 0, src: y.Call.Args[1]})
+					return
+				}
+				add(y, c01NItem{off: lo, n: hi - lo, kind: 0, src: y.Call.Args[1]})
+				return
+			}
+			if args, name, order, ok := c01ByteOrderCall(y, "PutUint"); ok && c01Root(args[0]) == root {
+				lo, hi, ok := win(args[0])
+				if !ok {
+					add(y, c01NItem{off: -1, n: c01UintWidth(name), kind: 1, src: args[1], fn: name, order: order})
+					return
+				}
+				add(y, c01NItem{off: lo, n: c01UintWidth(name), kind: 1, src: args[1], fn: name, order: order, winHi: hi})
+			}
+		case *ssa.Store:
+			ia, ok := y.Addr.(*ssa.IndexAddr)
+			if !ok || c01Root(ia.X) != root {
+				return
+			}
+			base, _, wok := win(ia.X)
+			if _, isAlloc := ia.X.(*ssa.Alloc); isAlloc && ia.X == root {
+				base, wok = 0, true
+			}
+			idx, ok := c01ConstInt(ia.Index)
+			if !ok {
+				// len(nonce)-k
+				l := c01Linear(ia.Index)
+				if lc, isCall := l.Base.(*ssa.Call); isCall && builtinName(lc) == "len" && lc.Call.Args[0] == ia.X {
+					if n, nok := c01StaticLen(ia.X); nok {
+						idx, ok = n+l.K, true
+					}
+				}
+			}
+			if !ok || !wok {
+				add(y, c01NItem{off: -1, n: 1, kind: 2, src: y.Val, blk: y.Block()})
+				return
+			}
+			add(y, c01NItem{off: base + idx, n: 1, kind: 2, src: y.Val, blk: y.Block()})
+		}
+	})
+	if late {
+		return items, size, "the buffer is still written in place after it has been extended by append"
+	}
+	return items, size, ""
+}
+
+func (x *c01Ctx) nonceLayout(nf *ssa.Function, root ssa.Value, finals []ssa.Value, dir string) {
 	r, p, s := x.r, x.p, x.spec
 	fname := dir
 	pos := p.Pos(nf.Pos())
@@ -141,101 +507,96 @@ func (x *c01Ctx) nonceLayout(nf *ssa.Function, root ssa.Value, dir string) {
 		r.Undecide("C01.R3: %s no longer takes (uint32 counter, bool last)", fname)
 		return
 	}
-	// the nonce buffer (found by role: what is handed to the AEAD as nonce)
-	var size int64 = -1
-	switch a := root.(type) {
-	case *ssa.Alloc:
-		if arr, ok := deref(a.Type()).Underlying().(*types.Array); ok {
-			size = arr.Len()
-		}
-	case *ssa.MakeSlice:
-		if k, ok := c01ConstInt(a.Len); ok {
-			size = k
-		}
+	// one model per way of completing the nonce (return append(n, 1) / return append(n, 0)); the items of all
+	// of them are checked, each under the branch conditions of the block it sits in
+	if len(finals) == 0 {
+		finals = []ssa.Value{nil}
 	}
-	if size < 0 {
-		r.Undecide("C01.R3: cannot determine the nonce length allocated in %s", fname)
-		return
+	var items []c01NItem
+	var size int64
+	for i, final := range finals {
+		its, sz, why := c01NonceModel(nf, root, final)
+		if why != "" {
+			r.Undecide("C01.R3: the way %s assembles the nonce is not modelled: %s", fname, why)
+			return
+		}
+		if i > 0 && sz != size {
+			r.Violation(c01R3, fname+" nonce length", pos, fmt.Sprintf("the nonce is %d bytes on one path and %d on another, the README says %d", size, sz, s.NonceSize))
+			return
+		}
+		items, size = append(items, its...), sz
 	}
 	r.Check(size == s.NonceSize, c01R3, fname+" nonce length", pos, fmt.Sprintf("%d bytes as in the README", size), fmt.Sprintf("the nonce is %d bytes, the README says %d", size, s.NonceSize))
 
-	win := func(v ssa.Value) (lo, hi int64, ok bool) { // constant window of root
-		sl, isSl := v.(*ssa.Slice)
-		if !isSl || c01Root(v) != root {
-			return 0, 0, false
-		}
-		lo, hi = 0, size
-		if sl.Low != nil {
-			k, ok := c01ConstInt(sl.Low)
-			if !ok {
-				return 0, 0, false
-			}
-			lo = k
-		}
-		if sl.High != nil {
-			k, ok := c01ConstInt(sl.High)
-			if !ok {
-				return 0, 0, false
-			}
-			hi = k
-		}
-		if inner, ok := sl.X.(*ssa.Slice); ok && c01Root(inner) == root && inner.Low != nil {
-			if k, ok := c01ConstInt(inner.Low); ok {
-				lo, hi = lo+k, hi+k
-			}
-		}
-		return lo, hi, true
-	}
 	// prefix
-	prefixOK, prefixSeen := false, false
+	prefixOK, prefixSeen, prefixOpen := false, false, false
 	// counter
 	ctrOK, ctrSeen, ctrWhy := false, false, ""
-	allInstrs(nf, func(in ssa.Instruction) {
-		c, ok := in.(*ssa.Call)
-		if !ok {
-			return
-		}
-		if builtinName(c) == "copy" && len(c.Call.Args) == 2 {
-			if lo, hi, ok := win(c.Call.Args[0]); ok {
-				prefixSeen = true
-				// where the prefix bytes come from is compared with the manifest's NoncePrefix by R8
-				if lo == 0 && hi == s.PrefixLen {
+	for _, it := range items {
+		switch it.kind {
+		case 0:
+			if it.off < 0 {
+				continue
+			}
+			// where the prefix bytes come from is compared with the manifest's NoncePrefix by R8
+			n := it.n
+			srcLen, srcKnown := c01StaticLen(it.src)
+			if srcKnown && srcLen < n {
+				n = srcLen
+			}
+			switch {
+			case it.off == 0 && n == s.PrefixLen:
+				prefixOK = true
+			case it.off == 0 && n > s.PrefixLen && !srcKnown && it.winHi != -1:
+				// copy(nonce, prefix) into a wider window copies as many bytes as the prefix has; what follows byte
+				// PrefixLen is fixed by the integer written there afterwards
+				over := false
+				for _, o := range items {
+					if o.kind == 1 && o.off == s.PrefixLen && o.in != nil && it.in != nil && c01InstrBefore(it.in, o.in) {
+						over = true
+					}
+				}
+				if over {
 					prefixOK = true
+				} else {
+					prefixOpen = true
 				}
+			default:
+				prefixSeen = true
+			}
+		case 1:
+			if it.src != ssa.Value(num) {
+				continue
+			}
+			ctrSeen = true
+			switch {
+			case it.fn != "PutUint32" && it.fn != "AppendUint32":
+				ctrWhy = "the counter is written with " + it.fn + " (spec: 4 bytes, 32-bit unsigned)"
+			case it.order != "bigEndian":
+				ctrWhy = "the counter is written with byte order " + it.order + " (spec: big-endian)"
+			case it.off < 0:
+				ctrWhy = ""
+				ctrSeen = false
+			case it.off != s.PrefixLen || (it.winHi >= 0 && it.winHi < it.off+s.CounterLen):
+				hi := it.winHi
+				if hi < 0 {
+					hi = it.off + it.n
+				}
+				ctrWhy = fmt.Sprintf("the counter is written at bytes [%d:%d) of the nonce (spec: [%d:%d))", it.off, hi, s.PrefixLen, s.PrefixLen+s.CounterLen)
+			default:
+				ctrOK = true
 			}
 		}
-		if obj := calleeObj(c); obj != nil && obj.Pkg() != nil && obj.Pkg().Path() == "encoding/binary" && len(c.Call.Args) >= 2 {
-			args := c.Call.Args
-			if !c.Call.IsInvoke() && obj.Type().(*types.Signature).Recv() != nil {
-				args = args[1:]
-			}
-			if len(args) == 2 && args[1] == num {
-				ctrSeen = true
-				recv := typeBaseName(obj.Type().(*types.Signature).Recv().Type())
-				lo, hi, wok := win(args[0])
-				switch {
-				case obj.Name() != "PutUint32":
-					ctrWhy = "the counter is written with " + obj.Name() + " (spec: 4 bytes, 32-bit unsigned)"
-				case recv != "bigEndian":
-					ctrWhy = "the counter is written with byte order " + recv + " (spec: big-endian)"
-				case !wok:
-					ctrWhy = ""
-					ctrSeen = false
-				case lo != s.PrefixLen || hi < lo+s.CounterLen:
-					ctrWhy = fmt.Sprintf("the counter is written at bytes [%d:%d) of the nonce (spec: [%d:%d))", lo, hi, s.PrefixLen, s.PrefixLen+s.CounterLen)
-				default:
-					ctrOK = true
-				}
-			}
-		}
-	})
+	}
 	switch {
 	case prefixOK:
 		r.OK(c01R3, fname+" nonce prefix", pos, fmt.Sprintf("bytes [0:%d) are copied in", s.PrefixLen))
+	case prefixOpen:
+		r.Undecide("C01.R3: %s copies the prefix into a window of the nonce wider than %d bytes; how many bytes it fills depends on the length of the prefix", fname, s.PrefixLen)
 	case prefixSeen:
-		r.Violation(c01R3, fname+" nonce prefix", pos, fmt.Sprintf("the copy into the nonce does not fill bytes [0:%d) (spec: nonce_prefix (%d bytes) first)", s.PrefixLen, s.PrefixLen))
+		r.Violation(c01R3, fname+" nonce prefix", pos, fmt.Sprintf("the bytes copied into the nonce do not fill bytes [0:%d) (spec: nonce_prefix (%d bytes) first)", s.PrefixLen, s.PrefixLen))
 	default:
-		r.Undecide("C01.R3: no copy(nonce[...], prefix) recognised in %s", fname)
+		r.Undecide("C01.R3: no copy(nonce[...], prefix) / append(nonce, prefix...) recognised in %s", fname)
 	}
 	switch {
 	case ctrOK:
@@ -255,35 +616,7 @@ func (x *c01Ctx) nonceLayout(nf *ssa.Function, root ssa.Value, dir string) {
 		return
 	}
 	oneOK, bad, seen := false, "", false
-	allInstrs(nf, func(in ssa.Instruction) {
-		st, ok := in.(*ssa.Store)
-		if !ok {
-			return
-		}
-		ia, ok := st.Addr.(*ssa.IndexAddr)
-		if !ok || c01Root(ia.X) != root {
-			return
-		}
-		idx, ok := c01ConstInt(ia.Index)
-		if !ok {
-			// len(nonce)-k
-			l := c01Linear(ia.Index)
-			if lc, isCall := l.Base.(*ssa.Call); isCall && builtinName(lc) == "len" && c01Root(lc.Call.Args[0]) == root {
-				idx, ok = size+l.K, true
-			}
-		}
-		if !ok {
-			return
-		}
-		val, isK := c01ConstInt(st.Val)
-		lv, lknown := c01BoolAt(last, st.Block())
-		if !isK || !lknown {
-			if idx == flagIdx {
-				seen = true
-				bad = "?"
-			}
-			return
-		}
+	fact := func(idx int64, lv bool, val int64) {
 		seen = true
 		switch {
 		case idx == flagIdx && lv && val == 1:
@@ -296,7 +629,50 @@ func (x *c01Ctx) nonceLayout(nf *ssa.Function, root ssa.Value, dir string) {
 		default:
 			bad = fmt.Sprintf("the last-segment flag is written at byte %d of the nonce (spec: byte %d, after prefix and counter)", idx, flagIdx)
 		}
-	})
+	}
+	unknown := func(idx int64) {
+		if idx == flagIdx || idx < 0 {
+			seen = true
+			if bad == "" {
+				bad = "?"
+			}
+		}
+	}
+	for _, it := range items {
+		if it.kind != 2 {
+			continue
+		}
+		if it.off < 0 {
+			unknown(-1)
+			continue
+		}
+		lv, lknown := c01BoolAt(last, it.blk)
+		if val, isK := c01ConstInt(it.src); isK {
+			switch {
+			case lknown:
+				fact(it.off, lv, val)
+			case it.off == flagIdx:
+				// the same constant whatever 'last' is
+				fact(it.off, true, val)
+				fact(it.off, false, val)
+			}
+			continue
+		}
+		phi, isPhi := it.src.(*ssa.Phi)
+		if !isPhi || lknown {
+			unknown(it.off)
+			continue
+		}
+		for i, e := range phi.Edges {
+			val, isK := c01ConstInt(e)
+			ev, eknown := c01BoolOnEdge(last, phi.Block().Preds[i], phi.Block())
+			if !isK || !eknown {
+				unknown(it.off)
+				continue
+			}
+			fact(it.off, ev, val)
+		}
+	}
 	switch {
 	case bad == "?" || !seen:
 		r.Undecide("C01.R3: the way %s encodes the last-segment flag is not recognised", fname)
